@@ -13,6 +13,7 @@ import RtcModel.Lemmas.C15Ext
 import RtcModel.Lemmas.C15Rtcp
 import RtcModel.Lemmas.C15NackBuf
 import RtcModel.Lemmas.C15Utf8
+import RtcModel.Lemmas.C15Apt
 
 namespace RtcModel.Theorems.C15
 open RtcModel.C15 RtcModel.Generated
@@ -83,6 +84,48 @@ theorem rtp_semantic_stable (bs : Bytes) (p : Packet) (hp : parsePacket bs = .ok
         · cases hp; exact w
     · cases hp; exact w
 
+/-- **rtp_marshal_parse** (the inverse law in the other direction, for canonical wire encodings): if the
+parser accepts `bs` and — in case the P bit is set — the padding count is non-zero and every padding byte
+carries the count (the way this stack writes padding), then serialising the parsed packet reproduces
+`bs` byte for byte. Everything else in the encoding (version, CSRC list, extension block of any profile,
+payload) is already canonical because the format has no other freedom. -/
+theorem rtp_marshal_parse (bs : Bytes) (p : Packet) (hp : parsePacket bs = .ok p)
+    (hc : ∀ h body, parseHeader bs = .ok (h, true, body) →
+      p.padLen ≠ 0 ∧ body.drop (body.length - p.padLen.toNat) = List.replicate p.padLen.toNat p.padLen) :
+    marshalPacket p = .ok bs := by
+  unfold parsePacket at hp
+  split at hp
+  · cases hp
+  · next h padding body hh =>
+    have w := parseHeader_wf hh
+    have hb := parseHeader_inv hh
+    cases padding with
+    | false =>
+      simp only [Bool.false_eq_true, if_false, Except.ok.injEq] at hp
+      subst hp
+      simp only [marshalPacket, validate_ok_of_wf w]
+      rw [hb]; simp
+    | true =>
+      simp only [if_true] at hp
+      split at hp
+      · cases hp
+      · next pl hlast =>
+        split at hp
+        · cases hp
+        · next hle =>
+          simp only [Except.ok.injEq] at hp
+          subst hp
+          obtain ⟨hne, hrep⟩ := hc h body hh
+          simp only at hne hrep
+          have hne' : (pl != 0) = true := by simp [hne]
+          simp only [marshalPacket, validate_ok_of_wf w, hne']
+          rw [hb, ← hrep, List.append_assoc, List.take_append_drop]
+
+example : parsePacket [0xA0, 0x60, 0, 1, 0, 0, 0, 2, 0, 0, 0, 3, 0x55, 2, 2] =
+    .ok ⟨Header.new 96 1 2 3, [0x55], 2⟩ ∧
+    marshalPacket ⟨Header.new 96 1 2 3, [0x55], 2⟩ = .ok [0xA0, 0x60, 0, 1, 0, 0, 0, 2, 0, 0, 0, 3, 0x55, 2, 2] := by
+  constructor <;> rfl
+
 /-- **rtp_marshal_rejects_invalid**: the two structural ranges the wire cannot carry at all are errors,
 never silent truncation: more than 15 CSRCs, or an extension payload that is not 32-bit aligned. -/
 theorem rtp_marshal_rejects_invalid (p : Packet)
@@ -115,6 +158,116 @@ theorem rtx_unwrap_none_iff (p : Packet) (s : UInt32) (t : UInt8) :
   | [] => simp
   | [_] => simp
   | _ :: _ :: _ => simp
+
+/-- `decode_osn ∘ encode_osn = id`, whatever follows the two OSN bytes -/
+theorem osn_roundtrip (v : UInt16) (rest : Bytes) : decodeOsn (encodeOsn v ++ rest) = some v := by
+  simp [decodeOsn, encodeOsn, be16]
+
+/-- **rtx_alloc_spec**: `allocate_rtx_payload_type` returns the smallest dynamic payload type 96..127
+that is not in use, and `None` only when all 32 are taken. -/
+theorem rtx_alloc_spec (used : List UInt8) :
+    (∀ pt, allocRtxPt used = some pt → 96 ≤ pt.toNat ∧ pt.toNat ≤ 127 ∧ pt ∉ used ∧
+        ∀ q, 96 ≤ q → q < pt.toNat → u8 q ∈ used) ∧
+    (allocRtxPt used = none → ∀ q, 96 ≤ q → q ≤ 127 → u8 q ∈ used) := by
+  have key : ∀ (fuel lo : Nat), lo + fuel ≤ 256 →
+      (∀ pt, allocRtxPtFrom used lo fuel = some pt → lo ≤ pt.toNat ∧ pt.toNat < lo + fuel ∧ pt ∉ used ∧
+          ∀ q, lo ≤ q → q < pt.toNat → u8 q ∈ used) ∧
+      (allocRtxPtFrom used lo fuel = none → ∀ q, lo ≤ q → q < lo + fuel → u8 q ∈ used) := by
+    intro fuel
+    induction fuel with
+    | zero => intro lo _; exact ⟨by intro pt h; simp [allocRtxPtFrom] at h, by intro _ q h1 h2; omega⟩
+    | succ f ih =>
+      intro lo hlo
+      simp only [allocRtxPtFrom]
+      by_cases hc : used.contains (u8 lo) = true
+      · rw [if_pos hc]
+        obtain ⟨h1, h2⟩ := ih (lo + 1) (by omega)
+        have hmem : u8 lo ∈ used := by simpa using hc
+        refine ⟨fun pt hpt => ?_, fun hn q hq1 hq2 => ?_⟩
+        · obtain ⟨a, b, c, d⟩ := h1 pt hpt
+          refine ⟨by omega, by omega, c, fun q hq1 hq2 => ?_⟩
+          by_cases hql : q = lo
+          · subst hql; exact hmem
+          · exact d q (by omega) hq2
+        · by_cases hql : q = lo
+          · subst hql; exact hmem
+          · exact h2 hn q (by omega) (by omega)
+      · rw [if_neg hc]
+        have hnm : u8 lo ∉ used := by simpa using hc
+        refine ⟨fun pt hpt => ?_, fun hn => by cases hn⟩
+        simp only [Option.some.injEq] at hpt
+        subst hpt
+        have : (u8 lo).toNat = lo := u8_toNat_lt (by omega)
+        exact ⟨by omega, by omega, hnm, fun q hq1 hq2 => by omega⟩
+  have hlo : c15RtxPtLo = 96 := c15RtxPtLo_val
+  have hhi : c15RtxPtHi = 127 := c15RtxPtHi_val
+  have := key (c15RtxPtHi + 1 - c15RtxPtLo) c15RtxPtLo (by omega)
+  unfold allocRtxPt
+  refine ⟨fun pt hpt => ?_, fun hn q h1 h2 => ?_⟩
+  · obtain ⟨a, b, c, d⟩ := this.1 pt hpt
+    exact ⟨by omega, by omega, c, fun q hq1 hq2 => d q (by omega) hq2⟩
+  · exact this.2 hn q (by omega) (by omega)
+
+/-- **apt_roundtrip**: the association `a=fmtp:<rtx> apt=<primary>` that `append_rtx_to_section` writes is
+read back by `parse_apt` / `extract_rtx_apt_map` for every pair of payload types 0..255. -/
+theorem apt_roundtrip (rtx primary : Fin 256) :
+    parseApt (aptLower ++ dec3 primary.val) = some (u8 primary.val) ∧
+    extractApt [(fmtpKey, some (dec3 rtx.val ++ 0x20 :: (aptLower ++ dec3 primary.val)))] [] =
+      [(u8 rtx.val, u8 primary.val)] := by
+  refine ⟨parseApt_dec3 primary, ?_⟩
+  simp only [extractApt, ne_eq, not_true_eq_false, if_false, splitFirstSpace_dec3 rtx, parseU8_dec3 rtx,
+    parseApt_dec3 primary, List.filter_nil]
+
+/-- every RTCP packet this stack serialises is classified as RTCP by `is_rtcp` (the demultiplexer's test) -/
+theorem is_rtcp_own_output (p : Rtcp) (bs : Bytes) (h : marshalOne p = .ok bs) : isRtcp bs = true := by
+  have hw : ∀ fmt pt body, 192 ≤ pt → pt ≤ 208 → isRtcp (writeRtcp fmt pt body) = true := by
+    intro fmt pt body h1 h2
+    simp only [writeRtcp, isRtcp, u8_toNat, c15IsRtcpLo_val, c15IsRtcpHi_val]
+    have : pt % 256 = pt := by omega
+    simp [this, h1, h2]
+  cases p with
+  | sr s m l t pc oc bl =>
+    simp only [marshalOne] at h; split at h
+    · cases h
+    · injection h with h; subst h; exact hw _ _ _ (by rw [c15RtcpSr_val]; omega) (by rw [c15RtcpSr_val]; omega)
+  | rr s bl =>
+    simp only [marshalOne] at h; split at h
+    · cases h
+    · injection h with h; subst h; exact hw _ _ _ (by rw [c15RtcpRr_val]; omega) (by rw [c15RtcpRr_val]; omega)
+  | sdes cs =>
+    simp only [marshalOne] at h; split at h
+    · cases h
+    · split at h
+      · cases h
+      · injection h with h; subst h; exact hw _ _ _ (by rw [c15RtcpSdes_val]; omega) (by rw [c15RtcpSdes_val]; omega)
+  | bye ss r =>
+    simp only [marshalOne] at h; split at h
+    · cases h
+    · injection h with h; subst h; exact hw _ _ _ (by rw [c15RtcpBye_val]; omega) (by rw [c15RtcpBye_val]; omega)
+  | pli s m =>
+    simp only [marshalOne] at h; injection h with h; subst h
+    exact hw _ _ _ (by rw [c15RtcpPsfb_val]; omega) (by rw [c15RtcpPsfb_val]; omega)
+  | fir s rq =>
+    simp only [marshalOne] at h; injection h with h; subst h
+    exact hw _ _ _ (by rw [c15RtcpPsfb_val]; omega) (by rw [c15RtcpPsfb_val]; omega)
+  | nack s m lost =>
+    simp only [marshalOne] at h; split at h
+    · cases h
+    · injection h with h; subst h; exact hw _ _ _ (by rw [c15RtcpRtpfb_val]; omega) (by rw [c15RtcpRtpfb_val]; omega)
+  | remb s br ss =>
+    simp only [marshalOne] at h; split at h
+    · cases h
+    · injection h with h; subst h; exact hw _ _ _ (by rw [c15RtcpPsfb_val]; omega) (by rw [c15RtcpPsfb_val]; omega)
+  | twcc s m b c r f pl =>
+    simp only [marshalOne] at h; injection h with h; subst h
+    have h205 := hw c15FmtTwcc c15RtcpRtpfb
+    simp only [twccWire]
+    split
+    · exact h205 _ (by rw [c15RtcpRtpfb_val]; omega) (by rw [c15RtcpRtpfb_val]; omega)
+    · have := h205 (twccBody s m b c r f pl ++ List.replicate (pad4 (twccBody s m b c r f pl).length - 1) 0 ++
+          [u8 (pad4 (twccBody s m b c r f pl).length)]) (by rw [c15RtcpRtpfb_val]; omega) (by rw [c15RtcpRtpfb_val]; omega)
+      simp only [writeRtcp] at this ⊢
+      simpa [isRtcp] using this
 
 /-! ### header extensions (RFC 8285) -/
 
@@ -205,6 +358,25 @@ theorem ext_set_aligned (h h' : Header) (id : UInt8) (data : Bytes) (hs : setExt
   refine ⟨_, rfl, ?_⟩
   simp only [List.length_append, List.length_replicate]
   exact pad4_aligned _
+
+/-- **ext_get_canonical**: on the canonical RFC 8285 encoding of ANY element list — one-byte form
+(ids 1..14, 1..16 data bytes) or two-byte form (ids 1..255, 0..255 data bytes), followed by any amount of
+padding — `get_extension(id)` returns the data of the first element carrying that id, and nothing for an
+id that is absent. -/
+theorem ext_get_canonical (h : Header) (id : UInt8) (els : List (Nat × Bytes)) (k : Nat) :
+    ((∀ e ∈ els, ElemOk e.1 e.2) → h.ext = some ⟨0xBEDE, encodeOne els ++ List.replicate k 0⟩ →
+      getExtension h id = lookup id.toNat els) ∧
+    ((∀ e ∈ els, Elem2Ok e.1 e.2) → h.ext = some ⟨0x1000, encodeTwo els ++ List.replicate k 0⟩ →
+      getExtension h id = lookup id.toNat els) := by
+  constructor
+  · intro hok he
+    simp only [getExtension, he]
+    rw [if_pos (by rw [c15OneByteProfile_val]; rfl)]
+    exact getOne_encodeOne els hok _ _
+  · intro hok he
+    simp only [getExtension, he]
+    rw [if_neg (by rw [c15OneByteProfile_val]; decide), if_pos (by rw [c15TwoByteProfile_val]; rfl)]
+    exact getTwo_encodeTwo els hok _ _
 
 example : setExtension (Header.new 96 1 2 3) 5 [0xAA, 0xBB] =
     .ok { Header.new 96 1 2 3 with ext := some ⟨0xBEDE, [0x51, 0xAA, 0xBB, 0]⟩ } := by
@@ -340,6 +512,13 @@ theorem rtcp_parse_marshal_remb (s : UInt32) (br : Nat) (ss : List UInt32) (hn :
     ∃ bs, marshalCompound [.remb s br ss] = .ok bs ∧ parseCompound bs = .ok [.remb s br ss] :=
   rtcp_compound_roundtrip _ (by intro p hp; simp only [List.mem_singleton] at hp; subst hp; exact ⟨hn, hb, hrep⟩)
 
+/-- **remb_wire_values_representable**: every bitrate the REMB wire format can express — an 18-bit
+mantissa times a power of two, below 2^64 — satisfies the representability hypothesis of
+`rtcp_parse_marshal_remb` (so e.g. every bitrate below 262 144 bps and every such value scaled by 2^e). -/
+theorem remb_wire_values_representable (m e : Nat) (hm : m < 2 ^ 18) (hv : m * 2 ^ e < 2 ^ 64) :
+    rembCanon (m * 2 ^ e) = m * 2 ^ e :=
+  rembCanon_wire m e (by omega) hv
+
 /-- **TWCC**: 24-bit reference time and an opaque status/delta payload of ANY length (an unaligned
 payload is carried with RTCP padding since the `fix:` commit; before it the payload came back
 zero-extended) -/
@@ -470,6 +649,8 @@ theorem nackbuf_bounded (maxSize : Nat) (ops : List BufOp) :
         simp only [bufFinal]; rw [ih]
         cases o with
         | push s t => simp only [NackBuf.step, NackBuf.push]; split <;> rfl
+        | sent ssrc s t => simp only [NackBuf.step, NackBuf.push]; split <;> (try split) <;> rfl
+        | setRtx ssrc => rfl
         | query n q => rfl
     exact this ops _
   exact ⟨by rw [hl, ← hm]; exact i.bounded, hl, i.nodup, mem_order_iff i⟩
@@ -479,6 +660,12 @@ sequence number replaces the stored packet) — in every reachable state. -/
 theorem nackbuf_latest (maxSize : Nat) (ops : List BufOp) (s : UInt16) (t : Nat) :
     mapGet ((bufFinal (NackBuf.new maxSize) ops).push s t).packets s = some t :=
   push_get_self (inv_final (inv_new maxSize) ops) s t
+
+/-- RTX retransmissions (packets carrying the configured RTX SSRC) are never stored in the send buffer,
+so a NACK can never be answered with an RTX packet wrapped in RTX again. -/
+theorem nackbuf_never_buffers_rtx (b : NackBuf) (seq : UInt16) (tag : Nat) (h : b.rtxSsrc ≠ 0) :
+    (b.step (.sent b.rtxSsrc seq tag)).1 = b := by
+  simp [NackBuf.step, h]
 
 /-- **nackbuf_fifo**: one send changes the FIFO in exactly one of three ways — nothing (sequence number
 already buffered), append, or append and drop the single OLDEST entry (only when the buffer is full). -/
